@@ -128,10 +128,12 @@ class Collector:
         except Exception as e:  # harness bug
             self.harness_errors.append(f"info() raised {e!r} on {canon(case)[:300]}")
             return
+        w = int(inf.get("weight", 1))          # block cases stand for `weight` individual evaluations
+        self.evaluations += w - 1
         for c in inf.get("classes", ()):
-            self.classes[c] += 1
+            self.classes[c] += w
         if inf.get("nontrivial"):
-            self.nontrivial += 1
+            self.nontrivial += int(inf.get("nontrivial_weight", w))
             if self.active and not self.in_any_region(case):
                 self.nontrivial_outside_regions += 1
             if not self.stream.distinct_by_construction:
